@@ -14,7 +14,7 @@ def main():
     name = sys.argv[1]
     prop = name.split("-")[0]
     sd = os.path.join(VERIF, "seeded", name)
-    if prop[:2] in ("F_", "G_", "H_"):
+    if prop[:2] in ("F_", "G_", "H_", "I_"):
         # file-focused seed: the property it breaks is named on the first line of its notes ("property: C07")
         try:
             first = open(os.path.join(sd, "notes.md"), encoding="utf-8").read()
